@@ -280,9 +280,9 @@ def one_run(ctx, prop, rng, cfg, script, npool, tag):
                 "gens_at_start": [g for _, _, g in tape.applied]}
         mod = {"outcome": r["outcome"], "started": r["started"], "totals_at_start": r["totals_at_start"], "gens_at_start": r["gens_at_start"]}
         if outcome == "ok":
-            impl.update({"eigenvalue": rat_str(F(res.eigenvalue)), "best": next(i for i, y in enumerate(pool) if G.indiv_struct(y) == G.indiv_struct(res.best_individual)),
+            impl.update({"eigenvalue": rat_str(F(res.eigenvalue)), "best": next((i for i, y in enumerate(pool) if G.indiv_struct(y) == G.indiv_struct(res.best_individual)), None),
                          "ledger": list(res.circuit_evaluations), "generations": res.generations,
-                         "history": [[next(i for i, y in enumerate(pool) if y is e.best_individual), rat_str(F(e.best_expectation_value))] for e in res.population_evaluation_results]})
+                         "history": [[next((i for i, y in enumerate(pool) if y is e.best_individual), None), rat_str(F(e.best_expectation_value))] for e in res.population_evaluation_results]})
             for k in ("eigenvalue", "best", "ledger", "generations", "history"):
                 mod[k] = r.get(k)
         ctx.compare("solver.run", inp, impl, mod)
@@ -310,6 +310,7 @@ def one_run(ctx, prop, rng, cfg, script, npool, tag):
             except Exception as e:  # noqa: BLE001
                 res2, outcome2 = None, ("raised" if "without having evaluated any population" in str(e) else "exc:" + type(e).__name__ + ":" + str(e)[:60])
         inp2 = dict(inp, second_run_on_the_same_solver={"cfg": cfg2, "script": script2})
+        inp = inp2  # (violations of the second run are reported with both runs as the failing input)
         ctx.case(inp2, nontrivial=True, tags=["second-run-same-solver", "outcome2:" + outcome2.split(":")[0]])
         emitted2 = []
         for (k, _, _) in tape.applied:
@@ -317,6 +318,19 @@ def one_run(ctx, prop, rng, cfg, script, npool, tag):
         hist2 = [(ev[1], F(ev[2])) for ev in emitted2 if ev[0] == "result"]
         if outcome2 == "ok" and not hist2:
             violate("C12", "a run without any evaluated population returned a result instead of raising (second run on the same solver object)")
+        # the limits configured NOW (the configuration object was edited between the solves) are the ones that count
+        for (k, reported, gens) in tape.applied:
+            if cfg2["max_evals"] is not None and (reported >= cfg2["max_evals"] or (script2[k]["est"] is not None and reported + script2[k]["est"] >= cfg2["max_evals"])):
+                violate("C12", "an operator was started although the reported evaluations (plus its estimate) had reached the budget (second run on the same solver object, "
+                        "limits edited in the configuration in between)", {"step": k, "reported": reported, "max_circuit_evaluations": cfg2["max_evals"]})
+                break
+            if cfg2["max_gen"] is not None and gens >= cfg2["max_gen"]:
+                violate("C12", "an operator was started after the maximum number of generations had been evaluated (second run on the same solver object, limits edited "
+                        "in the configuration in between)", {"step": k, "generations": gens, "max_generations": cfg2["max_gen"]})
+                break
+        one2 = all(sum(1 for ev in st["events"] if ev[0] == "result") <= 1 for st in script2)
+        if outcome2 == "ok" and cfg2["max_gen"] is not None and cfg2["max_evals"] is None and not cfg2["has_crit"] and one2 and res2.generations != cfg2["max_gen"]:
+            violate("C12", "max_generations is the only limit but a different number of generations was evaluated (second run on the same solver object)", res2.generations)
         if outcome2 == "ok" and hist2:
             mn2 = min(v for _, v in hist2)
             if F(res2.eigenvalue) != mn2 or res2.generations != len(hist2) or len(res2.population_evaluation_results) != len(hist2):
@@ -496,6 +510,10 @@ def run_end_to_end(ctx, prop):
         TOL = 1e-9
         if res.generations != len(evals) or (res.generations != max_gen and fault_at is None):
             violate("generations differs from the number of recorded population evaluations (or from max_generations)", [res.generations, len(evals)])
+            continue  # (the recorded evaluations are not those of this solve: nothing further to recompute)
+        if any(ind.n_qubits != nq for e in evals for ind in e.population.individuals):
+            violate("a recorded evaluation contains individuals on another number of qubits than the problem")
+            continue
         for g, e in enumerate(evals):
             inds = e.population.individuals
             if len(e.expectation_values) != len(inds):
